@@ -82,12 +82,16 @@ template<class Geod> static void props(const char* name, const Geod& g, double a
 // relations hold on a copy of the solver object whose maxit2_ is maxit1_ + 2 digits + 20 (the candidate repair).
 static void set_budget(Geodesic& h);
 static void set_budget(GeodesicExact& h);
+// the input class of F63: strongly eccentric ellipsoid, both points within 1e-3 deg of the equator, and the solver object has (at least) the
+// budget the library ships with - a change that lowers the budget, or failures elsewhere, are not part of the finding
+template<class Geod> static bool budget_class(const Geod& g, double f, double lat1, double lat2) {
+  return std::fabs(f) >= 0.25 && std::fabs(lat1) <= 1e-3 && std::fabs(lat2) <= 1e-3 && g.maxit2_ >= g.maxit1_ + Math::digits() + 10 && g.maxit2_ < g.maxit1_ + 2 * Math::digits() + 20; }
 template<class Geod> static void budget_props(const char* name, const Geod& g, double acc, double ea, double f, double lat1, double lon1, double lat2, double lon2) {
   std::vector<std::pair<std::string, std::string>> first, second;
   sink = &first; props(name, g, acc, ea, f, lat1, lon1, lat2, lon2); sink = nullptr;
   if (first.empty()) return;
   std::string tag;
-  if (class_tag.empty() && g.maxit2_ < g.maxit1_ + 2 * Math::digits() + 20) { Geod h(g); set_budget(h);
+  if (class_tag.empty() && budget_class(g, f, lat1, lat2)) { Geod h(g); set_budget(h);
     sink = &second; props(name, h, acc, ea, f, lat1, lon1, lat2, lon2); sink = nullptr; if (second.empty()) tag = " [class:bisection-budget]"; }
   for (auto& b : first) gv::bad(b.first, b.second + class_tag + tag);
 }
@@ -147,7 +151,7 @@ template<class Geod, class Line> static void budget_entry(const char* name, cons
   if (first.empty()) return;
   std::string tag; { double e, l12 = std::fabs(Math::AngDiff(lon1, lon2, e)); double over = (l12 - 180 * (1 - f)) + (std::signbit(Math::AngDiff(lon1, lon2)) ? -e : e); double s; g.Inverse(lat1, lon1, lat2, lon2, s);
     if (f >= 0.3 && Math::AngRound(lat1) == 0 && Math::AngRound(lat2) == 0 && over > 0 && over <= 64 * ulp(180.0) && s == 0) tag = " [class:equatorial-cutoff-roundoff]"; }
-  if (tag.empty() && g.maxit2_ < g.maxit1_ + 2 * Math::digits() + 20) { Geod h(g); set_budget(h);
+  if (tag.empty() && budget_class(g, f, lat1, lat2)) { Geod h(g); set_budget(h);
     sink = &second; entry_points<Geod, Line>(name, h, acc, ea, f, lat1, lon1, lat2, lon2); sink = nullptr; if (second.empty()) tag = " [class:bisection-budget]"; }
   // F64 (open): GeodesicExact::GenInverse reads s12x, which Lengths only sets when DISTANCE is requested, in the short-line guard of the
   // meridional branch: for meridional points less than 8 eps apart a12 depends on the output mask (uninitialised read)
